@@ -13,6 +13,7 @@ func c09LabOpts() lab.GenOpts {
 	return lab.GenOpts{
 		Engines: []string{"v1", "v2"}, MaxSources: 2, MaxDests: 3, MaxRecords: 12, MaxProcs: 2,
 		Nacks: true, Filters: true, Splits: true, Conditions: true, Workers: true,
+		ReadFaults: true, StreamErrs: true, DLQFaults: true, // "an error from any call": plugin streams that fail
 		UnlimitedDLQ: true, GateAcks: true, Hostile: true, FreeSched: 30, GateCalls: 50, Holds: true,
 		ClientKinds: []string{"stop", "stopandwait", "forcestop", "forcestop"}, ClientProb: 0.5,
 		MaxRetries: []int64{0, 1},
@@ -61,7 +62,6 @@ func TestC09Lab(t *testing.T) {
 		failOn(t, st, res, vs)
 	})
 }
-
 
 func c09LabOracle(res *lab.Result, m *lab.Model, h *lab.History) []lab.Violation {
 	c := res.Case
